@@ -94,6 +94,39 @@ def open_edit(l0: int, l1: int, l2: int) -> bool:
     return h.post(ok)
 
 
+def eltorito_edit(l0: int) -> bool:
+    """
+    pre: 1 <= l0 <= MAXLEN
+    post: _
+    """
+    # an El Torito image is re-opened (boot entries re-linked by the parser); then the boot file's only directory name is hidden
+    # (rm_hard_link) / an unrelated file is removed: the boot image must stay alive and the allocation exact, two generations
+    c = CFG
+    fp = skel.BootFP()
+    g0 = skel.new_iso(c)
+    g0.add_fp(fp, l0, **fkw(c, 'BOOT'))
+    g0.add_fp(fp, 2049, **fkw(c, 'AAA'))
+    g0.add_eltorito('/BOOT.;1', bootcatfile='/BOOT.CAT;1', rr_bootcatname='boot.cat' if c['rr'] else None,
+                    joliet_bootcatfile='/boot.cat' if c['joliet'] else None, udf_bootcatfile='/boot.cat' if c['udf'] else None)
+    iso, _out = _reopen(g0)
+    if EDIT == 'hide_boot':
+        iso.rm_hard_link(iso_path='/BOOT.;1')
+        if c['joliet']:
+            iso.rm_hard_link(joliet_path='/boot')
+        if c['udf']:
+            iso.rm_hard_link(udf_path='/boot')
+    else:
+        iso.rm_file(iso_path='/AAA.;1')
+    iso.force_consistency()
+    ok = skel.spans_ok(iso, skel.collect_spans(iso))
+    cat = iso.eltorito_boot_catalog
+    ok = ok & (cat.initial_entry.inode.get_data_length() == l0) & (cat.initial_entry.load_rba == cat.initial_entry.inode.extent_location())
+    iso3, _o = _reopen(iso)
+    cat3 = iso3.eltorito_boot_catalog
+    ok = ok & (cat3.initial_entry.load_rba == cat.initial_entry.load_rba) & (iso3.pvd.space_size == iso.pvd.space_size)
+    return h.post(ok)
+
+
 def empty_files(l0: int) -> bool:
     """
     pre: 0 <= l0 <= MAXLEN
@@ -158,6 +191,13 @@ def obligations(tier):
         obs.append({'name': 'C02.b/empty_files/%s' % skel.cfg_name(c), 'module': __name__, 'func': 'empty_files', 'params': {'cfg': c},
                     'cond_timeout': 1200, 'path_timeout': 300, 'bounds': 'two empty files + one of length in [0,6144]; rm_file of one empty file after re-open; config %s' % skel.cfg_name(c),
                     'functions': F, 'samples': [(0,), (5,)], 'stubs': ['M_struct', 'M_out', 'M_image']})
+    for c in plain:
+        for ed in ('hide_boot', 'rm_other'):
+            obs.append({'name': 'C02.b/eltorito_%s/%s' % (ed, skel.cfg_name(c)), 'module': __name__, 'func': 'eltorito_edit', 'params': {'cfg': c, 'edit': ed},
+                        'cond_timeout': 1500, 'path_timeout': 300,
+                        'bounds': 'El Torito image with a boot file of length in [1,6144], re-opened; edit %s; config %s' % (ed, skel.cfg_name(c)),
+                        'functions': F + ['PyCdlib._link_eltorito', 'PyCdlib._check_inode_against_eltorito'], 'samples': [(1,), (2049,)],
+                        'stubs': ['M_struct', 'M_out', 'M_image']})
     for c in udfc:
         for ed in ('rm_udf_link', 'add_udf_link', 'rm_file'):
             obs.append({'name': 'C02.b/%s/%s' % (ed, skel.cfg_name(c)), 'module': __name__, 'func': 'open_edit',
